@@ -629,10 +629,10 @@ func TestCheck(t *testing.T) {
 			run.Count("crash_chains", storeName(st))
 		}
 		// lossless after arbitrary histories ending in each kind of change, through the real maintenance shutdown path
-		for rep := 0; rep < env.N(3, 10); rep++ {
+		for rep := 0; rep < env.N(4, 8); rep++ {
 			for _, st := range []int{storeNflog, storeSilence} {
 				for _, last := range historyKinds(st) {
-					c := genHistory(r.Fork(), st, last)
+					c := genHistory(r.Fork(), st, last, rep%2 == 0)
 					historyCase(t, run, &c)
 				}
 			}
